@@ -857,10 +857,11 @@ def run_property(pid, tier, seed):
         sv = engineval.validate_semantics(seed + 1, nval)
         if 'error' in ev or ev.get('disagree'):
             broken.append('engine parser model disagrees with regex_syntax: %s' % (ev.get('error') or json.dumps(ev['disagree'][0])[:300]))
-        if 'error' in sv or sv.get('full_disagree') or sv.get('find_disagree'):
-            broken.append('engine matching model disagrees with the regex crate: %s' % (sv.get('error') or json.dumps((sv['full_disagree'] + sv['find_disagree'])[0])[:300]))
+        if 'error' in sv or sv.get('full_disagree') or sv.get('find_disagree') or sv.get('first_disagree'):
+            broken.append('engine matching model disagrees with the regex crate: %s' % (sv.get('error') or json.dumps((sv['full_disagree'] + sv['find_disagree'] + sv.get('first_disagree', []))[0])[:300]))
         res['stats']['engine_model'] = {'parser_patterns': ev.get('total'), 'parser_agree': ev.get('agree'), 'parser_model_rejects_only': ev.get('model_rejects_only'),
-                                        'semantics_patterns': sv.get('patterns'), 'semantics_haystacks': sv.get('haystacks')}
+                                        'semantics_patterns': sv.get('patterns'), 'semantics_haystacks': sv.get('haystacks'),
+                                        'leftmost_first_spans_compared': sv.get('first_compared')}
     # oracles on the implementation
     def fails_of(c, r):
         out = []
@@ -935,6 +936,50 @@ def run_property(pid, tier, seed):
     if pid == 'C08':
         import extra
         unknown += [(c, {'out': None}, fl) for c, fl in extra.cli_anchor_probe(res, seed)]
+        # SEARCH CORRESPONDENCE: the span `find` reports for every test case, predicted by the priority model of the regex
+        # crate (Engine/Prio.v: find_first on the MODEL's parsed output, extracted) against the PikeVM on the IMPLEMENTATION's
+        # output. The theorems C08_find_first_* speak about find_first; this is what ties it to the crate on the property's domain,
+        # K2 instances included (there the model predicts the shorter span).
+        if st['driver_ok']:
+            items = []
+            for c in allc:
+                fl_ = set(c.get('f', '').split(','))
+                r = impl.get(c['id']); mm = model.get(c['id'])
+                if not (fl_ & {'ns', 'ne'}) or r is None or mm is None or r.get('out') is None or 'harness_panic' in r:
+                    continue
+                if mm.get('out') in (None, '!ERR') or mm.get('out') != runner.ser_cps(r['out']):
+                    continue
+                items.append((r['out'], [list(t) for t in c['tcs']][:12], c))
+            sc_stats = {'cases': len(items), 'spans': 0, 'predicted_shorter_than_test_case': 0, 'disagree': 0, 'not_exact_model': 0}
+            if items:
+                inp = ("\n".join(json.dumps({"p": p_, "hs": hs_}) for p_, hs_, _ in items) + "\n").encode()
+                rc, out_, err_ = runner.sh([runner.GREXV, 'match'], inp=inp)
+                real = [json.loads(l) for l in out_.splitlines() if l.startswith('{')]
+                inp2 = ("\n".join(",".join(map(str, p_)) + "\t" + ";".join(",".join(map(str, h)) for h in hs_) for p_, hs_, _ in items) + "\n").encode()
+                rc2, out2_, err2_ = runner.sh([runner.DRIVER, '--match', os.path.join(runner.VERIF, 'build')], inp=inp2)
+                mod = out2_.splitlines()
+                if rc != 0 or rc2 != 0 or len(real) != len(items) or len(mod) != len(items):
+                    broken.append('search correspondence could not run: %s %s' % (err_[-150:], err2_[-150:]))
+                else:
+                    first_bad = None
+                    for (p_, hs_, c_), a, b in zip(items, real, mod):
+                        if b in ('NONE', 'CI', 'BAD'):
+                            sc_stats['not_exact_model'] += 1; continue
+                        for h, fi, mb in zip(hs_, a['find'], b.split(';')):
+                            mfirst = (mb.split('/') + ['?'])[2]
+                            if mfirst == '?':
+                                sc_stats['not_exact_model'] += 1; continue
+                            sc_stats['spans'] += 1
+                            want = None if mfirst == '-' else [int(x) for x in mfirst.split(':')]
+                            if want != [0, len(h)]:
+                                sc_stats['predicted_shorter_than_test_case'] += 1
+                            if (fi is None) != (want is None) or (fi is not None and list(fi) != want):
+                                sc_stats['disagree'] += 1
+                                if first_bad is None:
+                                    first_bad = {'case': c_, 'test_case': h, 'pikevm': fi, 'model_find_first': mfirst}
+                    if first_bad:
+                        broken.append('search correspondence: the priority model (Engine/Prio.v find_first) and the PikeVM report different spans: %s' % json.dumps(first_bad)[:400])
+            res['stats']['search_correspondence'] = sc_stats
     if pid == 'C13':
         import extra
         unknown += [(c, {'out': None}, fl) for c, fl in extra.python_threshold_probe(res, seed)]
@@ -1159,7 +1204,8 @@ def finish(pid, res):
         'samples': res.get('samples', [])[:5] + [{'theorem': n, 'statement': thm[n]['statement'][:400], 'assumptions': thm[n]['assumptions']} for n in names[:6]],
         'theorems': {n: thm[n] for n in names},
         'correspondence': {'cases_compared': stats.get('compared', 0), 'stages': spec.get('stages'), 'stage_disagreements': stats.get('stage_diffs', {}),
-                           'local_search_after_break': stats.get('local_search'), 'native_hunt': stats.get('native_hunt')},
+                           'local_search_after_break': stats.get('local_search'), 'native_hunt': stats.get('native_hunt'),
+                           'search_spans_priority_model_vs_pikevm': stats.get('search_correspondence')},
         'oracle': {'unknown_failures': res.get('unknown_failures', 0), 'known_class_failures': stats.get('known_class_failures', {}),
                    'undecided_language_queries': stats.get('undecided_lang', 0), 'engine_inconsistencies': stats.get('engine_inconsistencies', 0)},
         'distribution': {k: stats.get(k) for k in ('flags', 'alphabets', 'selfcheck', 'sizes', 'corpus', 'distinct')},
